@@ -325,6 +325,28 @@ _R6 = {
 }
 for _p, _t in _R6.items():
     CHECKS[_p]["text"] += _t
+
+# ---- round 7 additions ---------------------------------------------------------------------------------------------------
+_R7 = {
+    "C02": " Secretstream header (R2.10 = C09's R9.6 / R9.7 engine): after init the key is HChaCha20 over header[0..16) and the inonce is a verbatim "
+           "copy of header[16..24) (byte provenance of the final state).",
+    "C03": " Same-named set-up / wrapper functions of sibling stream backends make the same calls with the same role-normalised arguments as the "
+           "portable unit (R3.9, E7).",
+    "C06": " Combined-mode signing moves the message to sm + 64 first and hands that copy to the detached signer on every path (R6.4).",
+    "C08": " Both scrypt cores hand the same role-normalised arguments to their two PBKDF2 calls, and B has the same length when filled and when "
+           "it keys the final PBKDF2 (R8.8, E7).",
+    "C09": " Byte provenance of the state (last writer per byte, copies tracked with their offset through loops and memcpy): after init the key is the "
+           "output of crypto_core_hchacha20(state->k, header, k) and the inonce is header[16..24) (R9.6); rekey transforms state[0..32) || inonce - "
+           "not the counter - and writes both back (R9.7); init_push and init_pull leave the same final provenance (R9.2-init).",
+    "C10": " The SIMD crypto_verify_n combines per-position differences with OR only and depends on every byte (R10.8 = C14's engine on this "
+           "configuration).",
+    "C16": " sodium_pad / sodium_unpad write no static object (R16.6, E16).",
+    "C17": " Detection terminates unconditionally (R17.6): _out_of_bounds() ends in abort() itself and nothing it calls can reach an indirect call.",
+    "C18": " A delegating generator calls a generator whose public size constant has the same value (R18.1-deleg).",
+    "C19": " No thread-local object is written only under sodium_init() and read by other functions (R19.7).",
+}
+for _p, _t in _R7.items():
+    CHECKS[_p]["text"] += _t
 _PENDING = "not claimed"
 NOT_APPLICABLE = {
     "C01": "every clause is an equality between computed byte strings and a mathematical specification over all keys/nonces/lengths/backends: "
